@@ -48,9 +48,9 @@ def catalogue():
 def rand_outcomes(rnd, k, kind=None):
     kind = kind or rnd.choice(["int", "int", "int", "int", "neg", "frac", "bool", "float"])
     if kind == "int":
-        return rnd.sample(range(0, 8), k)
+        return rnd.sample(range(0, max(8, k + 2)), k)
     if kind == "neg":
-        return rnd.sample(range(-4, 4), k)
+        return rnd.sample(range(-4, max(4, k)), k)
     if kind == "frac":
         pool = [Fraction(n, d) for n in range(-3, 6) for d in (1, 2, 3)]
         pool = sorted(set(pool))
@@ -58,7 +58,7 @@ def rand_outcomes(rnd, k, kind=None):
     if kind == "bool":
         return rnd.sample([False, True], min(k, 2))
     if kind == "float":
-        return [float(x) for x in rnd.sample(range(-2, 6), k)]
+        return [float(x) for x in rnd.sample(range(-2, max(6, k)), k)]
     raise ValueError(kind)
 
 
